@@ -115,22 +115,40 @@ example : pbes2WrpIter (.obj [("p2c", .int (4294967296 + 1000))]) = none ∧
     any decryption or decompression -/
 theorem zip_limit (P : Prims) (jwe cek : Json) (ct : String)
     (hct : jwe.get? "ciphertext" = some (.str ct))
-    (hz : ((B64.decLoad (jwe.get? "protected")).bind (·.getStr? "zip")).any findComp = true)
+    (hz : zipInProtected jwe = true)
     (hlen : (B64.bytesOfString ct).length > maxCompressed) :
     decCek P jwe cek = none := by
   simp [decCek, hct, hz, hlen]
 
+/-- **the limit cannot be skipped by a protected header that cannot be read** (fix F35): above the limit, a JWE whose
+    protected header is text that does not decode to JSON is refused like a compressed one -/
+theorem zip_limit_unreadable_header (P : Prims) (jwe cek : Json) (ct s : String)
+    (hct : jwe.get? "ciphertext" = some (.str ct)) (hp : jwe.get? "protected" = some (.str s))
+    (hd : B64.decLoad (some (.str s)) = none)
+    (hlen : (B64.bytesOfString ct).length > maxCompressed) :
+    decCek P jwe cek = none :=
+  zip_limit P jwe cek ct hct (by simp [zipInProtected, hp, hd]) hlen
+
+/-- a protected header that names a registered compression, in either form, is "compressed" for the guard -/
+theorem zipInProtected_of_named (jwe prt : Json) (s z : String) (hp : jwe.get? "protected" = some (.str s))
+    (hd : B64.decLoad (some (.str s)) = some prt) (hz : prt.getStr? "zip" = some z) (hf : findComp z = true) :
+    zipInProtected jwe = true := by
+  simp [zipInProtected, hp, hd, hz, hf]
+
 /-- within the limit (or without compression) the guard plays no role -/
 theorem zip_limit_exact (P : Prims) (jwe cek : Json) (ct : String)
     (hct : jwe.get? "ciphertext" = some (.str ct))
-    (hok : ((B64.decLoad (jwe.get? "protected")).bind (·.getStr? "zip")).any findComp = false ∨
-           (B64.bytesOfString ct).length ≤ maxCompressed) :
+    (hok : zipInProtected jwe = false ∨ (B64.bytesOfString ct).length ≤ maxCompressed) :
     decCek P jwe cek = (decBody P jwe cek).bind fun f => (B64.decode (B64.bytesOfString ct)).bind f := by
   simp only [decCek, hct]
   rcases hok with h | h
   · simp [h]
   · have : ¬ (B64.bytesOfString ct).length > maxCompressed := by omega
     simp [this]
+
+/-- non-vacuity: an unreadable protected header counts as compressed, `{"zip":"DEF"}` too, `{}` does not -/
+example : zipInProtected (.obj [("protected", .str "!!")]) = true ∧ zipInProtected (.obj [("protected", .str "eyJ6aXAiOiJERUYifQ")]) = true ∧
+    zipInProtected (.obj [("protected", .str "e30")]) = false := by decide +kernel
 
 /-! ### sizes that feed fixed KEYMAX buffers -/
 
